@@ -396,6 +396,57 @@ func (w *verifWorld) hasCycle() bool {
 	return false
 }
 
+// verifAnyReadingCycle reports a cycle in the parent/hardlink graph built from ALL entries, overridden
+// duplicates included.  The main streams only use tars without such a cycle, so that the real code
+// terminates on them whichever duplicate it lets win (a wrong choice must show up as an oracle
+// failure, not as a stack overflow that takes the harness down).
+func verifAnyReadingCycle(ents []verifEnt) bool {
+	deps := map[string][]string{}
+	for _, e := range ents {
+		k := verifClean(e.name)
+		if k == "" || verifIsLandmarkKey(k) {
+			continue
+		}
+		deps[k] = append(deps[k], verifParent(k))
+		if e.typ == 'l' {
+			deps[k] = append(deps[k], verifClean(e.link))
+		}
+	}
+	color := map[string]int{}
+	var visit func(k string) bool
+	visit = func(k string) bool {
+		ds, ok := deps[k]
+		if !ok {
+			return false
+		}
+		switch color[k] {
+		case 1:
+			return true
+		case 2:
+			return false
+		}
+		color[k] = 1
+		for _, d := range ds {
+			if visit(d) {
+				return true
+			}
+		}
+		color[k] = 2
+		return false
+	}
+	keys := make([]string, 0, len(deps))
+	for k := range deps {
+		keys = append(keys, k)
+	}
+	sort.Strings(keys)
+	for _, k := range keys {
+		if visit(k) {
+			return true
+		}
+	}
+	return false
+}
+
 // resolvable: the path and everything that must precede it exist (acyclic worlds only).
 func (w *verifWorld) resolvable(k string, depth int) bool {
 	if k == "" {
@@ -704,7 +755,7 @@ var verifLeafPool = []string{"f", "g", "h", "k", "m", "n"}
 func verifGenCase(rnd *verifutil.Rand, allowCycle bool) verifCase {
 	for attempt := 0; ; attempt++ {
 		c := verifGenCaseOnce(rnd, attempt >= 8)
-		if allowCycle || !verifNewWorld(c.ents, false).hasCycle() {
+		if allowCycle || !verifAnyReadingCycle(c.ents) {
 			return c
 		}
 	}
@@ -905,13 +956,15 @@ func verifCycleScenarios(rnd *verifutil.Rand) []verifCase {
 	l := func(n, t string) verifEnt { return verifEnt{typ: 'l', name: n, link: t} }
 	cs := []verifCase{
 		{label: "cycle a<->b, untouched (control)", ents: []verifEnt{l("a", "b"), l("b", "a"), r("c", 4)}, prio: []string{"c"}},
+		{label: "overridden hardlink would close a cycle (control)", ents: []verifEnt{l("l1", "l2"), l("l2", "l1"), r("./l1", 5), r("c", 4)}, prio: []string{"l2", "c"}},
+		{label: "overridden hardlink to its own child (control)", ents: []verifEnt{l("d", "d/x"), r("d/x", 4), d("d/")}, prio: []string{"d/x"}},
 		{label: "cycle a<->b", ents: []verifEnt{l("a", "b"), l("b", "a"), r("c", 4)}, prio: []string{"a"}},
 		{label: "hardlink to itself", ents: []verifEnt{r("c", 4), l("a", "./a")}, prio: []string{"c", "a"}},
 		{label: "hardlink to its own child", ents: []verifEnt{l("d", "d/x"), r("d/x", 4)}, prio: []string{"d/x"}},
 		{label: "cycle of three below a directory", ents: []verifEnt{d("x/"), l("x/a", "x/b"), l("x/b", "/x/c"), l("x/c", "./x/a"), r("f", 3)}, prio: []string{"f", "x/b"}},
 		{label: "cycle reached through a chain", ents: []verifEnt{r("f", 3), l("l1", "l2"), l("l2", "l3"), l("l3", "l2")}, prio: []string{"l1"}},
 	}
-	for len(cs) < 9 {
+	for len(cs) < 11 {
 		c := verifGenCaseOnce(rnd, false)
 		if len(c.ents) > 0 {
 			// close a cycle through a fresh pair of hardlinks and list one of them
@@ -1104,6 +1157,13 @@ func verifRunCycleStream(out *verifutil.Out) {
 			}
 		}
 		out.Count("cycle-case")
+		control := strings.Contains(c.label, "control")
+		if (err != nil || result == "") && control {
+			// no cycle under the specified reading (last duplicate wins / path not listed): must terminate
+			out.Emit(verifSortOp(c, back, allow), "diverge")
+			out.Fail("diverged-on-acyclic-input", "sortEntries crashed or hung on a tar without a reachable cycle :: "+verifDescribe(c, allow))
+			continue
+		}
 		if err != nil || result == "" {
 			how := "crashed"
 			switch {
@@ -1118,8 +1178,9 @@ func verifRunCycleStream(out *verifutil.Out) {
 			out.Fail("moverec-link-cycle", "sortEntries/moveRec does not terminate: "+how+" :: "+verifDescribe(c, allow))
 			continue
 		}
-		if strings.Contains(c.label, "control") {
+		if control {
 			out.Emit(verifSortOp(c, back, allow), result)
+			out.Count("cycle-control")
 			continue
 		}
 		out.Comment("cycle input handled without divergence: " + result + " :: " + verifDescribe(c, allow))
